@@ -439,42 +439,59 @@ impl SubCheck for ConcurrentReplay {
     }
 }
 
-/// Real-time expiry probe (thorough only): a request accepted at tau with timestamp tau+29 is presented again 31 s
-/// later, when its timestamp is still acceptable: it must be rejected as a replay.
-pub fn expiry_probe(ctx: &PropCtx) {
+/// Real-time expiry probe: a request accepted at tau with timestamp tau+29 is presented again after real delays (the
+/// salt cache expires on std::time::Instant, which the clock hook does not move) at which its timestamp is still
+/// acceptable: every time it must be rejected as a replay. Quick: 0.15 s and 1.2 s; thorough adds 5 s and 31 s.
+pub fn expiry_probe(ctx: &PropCtx, delays_ms: &[u64]) {
     let sub = "replay-expiry-realtime";
     let mut d = Det::new(ctx.seed, "expiry");
     let mut cases = vec![];
     for (i, c22) in C22::ALL.iter().enumerate() {
-        let cred = gen::make_cred(Proto::Ss22(*c22), "", ctx.seed ^ i as u64, 0, 0);
-        let mut o = ReqOpts::new(T0);
-        o.ts_delta = 29;
-        let f = refside::ref_client_request(&cred, &Addr::V4([1, 2, 3, 4], 5), &[vec![7; 10]], &o, &mut d).unwrap();
-        let sctx = ServerCtx::new(&cred).unwrap();
-        real::set_clock(Some(T0));
-        let mut codec = sctx.codec().unwrap();
-        let (items, _, _) = feed_server(&mut codec, &[f.wire.clone()]);
-        let first = matches!(flow_of(&items), Flow::Tcp { .. });
-        cases.push((cred, f.wire, sctx, first));
-    }
-    std::thread::sleep(std::time::Duration::from_secs(31));
-    for (cred, wire, sctx, first) in cases {
-        real::set_clock(Some(T0 + 31));
-        let mut codec = sctx.codec().unwrap();
-        let (items, _, fed) = feed_server(&mut codec, &[wire.clone()]);
-        let again = matches!(flow_of(&items), Flow::Tcp { .. });
-        let mut out = Outcome::new();
-        out.nontrivial(format!("expiry|{}", cred.proto.short()));
-        out.label("replayed 31 s after acceptance, timestamp still within 30 s");
-        if !first {
-            out.fail("replay-expiry-realtime/ss-2022/first-presentation-rejected", "harness expectation: the first presentation is acceptable");
-        } else if again {
-            out.fail("replay-expiry-realtime/ss-2022/replay-accepted-after-cache-expiry", format!("request with timestamp T0+29 accepted at T0 was accepted again at T0+31 (still within the 30 s window): the replay cache forgot it (err {:?})", fed.err));
+        for users in [0usize, 2] {
+            if users > 0 && !c22.is_aes() {
+                continue;
+            }
+            let cred = gen::make_cred(Proto::Ss22(*c22), "", ctx.seed ^ i as u64, users, 1);
+            let mut o = ReqOpts::new(T0);
+            o.ts_delta = 29;
+            let f = refside::ref_client_request(&cred, &Addr::V4([1, 2, 3, 4], 5), &[vec![7; 10]], &o, &mut d).unwrap();
+            let sctx = ServerCtx::new(&cred).unwrap();
+            real::set_clock(Some(T0));
+            let mut codec = sctx.codec().unwrap();
+            let (items, _, _) = feed_server(&mut codec, &[f.wire.clone()]);
+            let first = matches!(flow_of(&items), Flow::Tcp { .. });
+            cases.push((cred, f.wire, sctx, first));
         }
-        if let Some(f) = &out.fail {
-            ctx.violation(sub, &serde_json::json!({"cred": cred, "note": "real-time probe; not replayable offline in less than 31 s"}), f);
-        } else {
-            ctx.record(sub, || serde_json::json!({"cipher": cred.proto.short(), "ts": "T0+29", "first": "T0", "second": "T0+31 (31 s of real time later)"}), &out);
+    }
+    let t0 = std::time::Instant::now();
+    for delay in delays_ms {
+        let target = std::time::Duration::from_millis(*delay);
+        if t0.elapsed() < target {
+            std::thread::sleep(target - t0.elapsed());
+        }
+        let el = t0.elapsed();
+        for (cred, wire, sctx, first) in &cases {
+            real::set_clock(Some(T0 + el.as_secs()));
+            let mut codec = sctx.codec().unwrap();
+            let (items, _, fed) = feed_server(&mut codec, &[wire.clone()]);
+            let again = matches!(flow_of(&items), Flow::Tcp { .. });
+            let mut out = Outcome::new();
+            out.nontrivial(format!("expiry|{}|{}|{}", cred.proto.short(), cred.users.len(), delay));
+            out.label(format!("replayed {} ms of real time after acceptance, timestamp still within 30 s", delay));
+            if !*first {
+                out.fail("replay-expiry-realtime/ss-2022/first-presentation-rejected", "harness expectation: the first presentation is acceptable");
+            } else if again {
+                out.fail(
+                    "replay-expiry-realtime/ss-2022/replay-accepted-after-cache-expiry",
+                    format!("request with timestamp T0+29 accepted at T0 was accepted again {:?} of real time later (clock T0+{}, still within the 30 s window): the replay cache forgot it (err {:?})", el, el.as_secs(), fed.err),
+                );
+            }
+            if let Some(f) = &out.fail {
+                ctx.violation(sub, &serde_json::json!({"cred": cred, "delay_ms": delay, "note": "real-time probe; replay by re-running the check"}), f);
+                return;
+            } else {
+                ctx.record(sub, || serde_json::json!({"cipher": cred.proto.short(), "users": cred.users.len(), "ts": "T0+29", "first": "T0", "replayed_after_ms": delay}), &out);
+            }
         }
     }
 }
@@ -496,7 +513,7 @@ pub fn run(ctx: &mut PropCtx) {
                 validity window; distinct by (protocol, direction, field, delta class / accept bit-string)."
         .into();
     ctx.assumptions = vec![
-        "the clock hook pins the protocol clock; the salt cache's own expiry uses std::time::Instant and is probed with one real 31 s sleep in the thorough tier only".into(),
+        "the clock hook pins the protocol clock; the salt cache's own expiry uses std::time::Instant and is probed with real delays: 0.15 s and 1.2 s in the quick tier, additionally 5 s and 31 s in the thorough tier".into(),
         "concurrent-replay explores the interleavings the machine produces (no schedule control)".into(),
     ];
     let t = ctx.tier;
@@ -504,6 +521,8 @@ pub fn run(ctx: &mut PropCtx) {
     rt::run_sub(ctx, &ReplayHistory, t.pick(8_000, 200_000));
     rt::run_sub(ctx, &ConcurrentReplay, t.pick(60, 1_500));
     if t == Tier::Thorough {
-        expiry_probe(ctx);
+        expiry_probe(ctx, &[150, 1200, 5000, 31_000]);
+    } else {
+        expiry_probe(ctx, &[150, 1200]);
     }
 }
